@@ -371,6 +371,15 @@ Theorem C05_weighted_quantile_consistent_exists :
 Proof. exact WeightedQuantile.wquantile_consistent_exists. Qed.
 Print Assumptions C05_weighted_quantile_consistent_exists.
 
+(* the weighted quantiles form an interval (as [qlow, qupp] in the unweighted case) *)
+Theorem C05_weighted_quantile_interval :
+  forall (a : R) (S : list (R * R)) (s t u : R),
+       Forall (fun e : R * R => 0 < snd e) S ->
+       WeightedQuantile.is_wquantile a S s -> WeightedQuantile.is_wquantile a S t -> s <= u <= t ->
+       WeightedQuantile.is_wquantile a S u.
+Proof. exact WeightedQuantile.wquantile_interval. Qed.
+Print Assumptions C05_weighted_quantile_interval.
+
 (* weights matter: sample (1, w = 1), (2, w = 3), level 1/2 - the weighted median is 2, not 1 *)
 Theorem C05_weighted_quantile_example :
   WeightedQuantile.is_wquantile (1 / 2) [(1, 1); (2, 3)] 2 /\ ~ WeightedQuantile.is_wquantile (1 / 2) [(1, 1); (2, 3)] 1.
